@@ -282,11 +282,18 @@ impl FromStr for HLCTimestamp {
             .and_then(|v| v.parse::<u8>().ok())
             .ok_or(InvalidFormat)?;
 
-        Ok(Self::new(
-            parts_as_duration(seconds, fractional),
-            counter,
-            node,
-        ))
+        // `new` panics when the seconds do not fit the 32 bit field, text input
+        // must be refused instead.
+        if seconds > TIMESTAMP_MAX {
+            return Err(InvalidFormat);
+        }
+
+        let duration = parts_as_duration(seconds, fractional);
+        if duration.as_secs() > TIMESTAMP_MAX {
+            return Err(InvalidFormat);
+        }
+
+        Ok(Self::new(duration, counter, node))
     }
 }
 
